@@ -73,7 +73,7 @@ pub fn spec_for(property: &str) -> Option<CheckSpec> {
             thorough_runs: 400_000,
             quick_budget_s: 60,
             thorough_budget_s: 600,
-            nontrivial_rule: "same histories as C01 with metadata (3 values + none), several markers per key, markers below live puts, both only_if_presented values, both duplicate policies; after every step read_all_with_deletion_marker (order, identity via load), read_all, read_with per meta value, delete count and marker placement, duplicate suppression (no physical record) are compared with the model. Non-trivial = >= 4 mutating data operations and > 20 I/O events; distinct = distinct I/O event signature",
+            nontrivial_rule: "a share of restart histories (profile restart: close + reopen, more than ten blobs in a fifth of them) for the cross-blob order of equal-timestamp versions; one run in about fifty has a 70 000-byte metadata value; otherwise same histories as C01 with metadata (3 values + none), several markers per key, markers below live puts, both only_if_presented values, both duplicate policies; after every step read_all_with_deletion_marker (order, identity via load), read_all, read_with per meta value, delete count and marker placement, duplicate suppression (no physical record) are compared with the model. Non-trivial = >= 4 mutating data operations and > 20 I/O events; distinct = distinct I/O event signature",
             nontrivial: nt_seq,
             assumptions: a,
             expected_probes: vec!["delete_in_closed_blob", "dup_suppressed"],
@@ -101,7 +101,7 @@ pub fn spec_for(property: &str) -> Option<CheckSpec> {
             thorough_runs: 400_000,
             quick_budget_s: 60,
             thorough_budget_s: 600,
-            nontrivial_rule: "sequential data histories with try_close/create/restore, background close/create/restore (only when applicable), force_update with three predicates, free_excess_resources, offload_buffer(level 0..3), fsyncdata, idle-until-dumped and restarts at random points; simulated latencies let index dumps finish at arbitrary moments relative to the next operation; both I/O modes. Oracle: lifecycle call returns Ok whenever its precondition (observed at a quiescent point) holds; all query answers equal the model after the call and again after background work has quiesced; following writes and deletes succeed. Non-trivial = >= 3 data operations and at least one successful lifecycle call, offload that freed memory, or delete into a closed blob; distinct = distinct I/O event signature",
+            nontrivial_rule: "profile seq-maint+opreadfault: exactly one EIO on a read that is not one of the checker's own queries (index load, dump, background read), the operation hit may fail, answers must not change. Otherwise: sequential data histories with try_close/create/restore, background close/create/restore (only when applicable), force_update with three predicates, free_excess_resources, offload_buffer(level 0..3), fsyncdata, idle-until-dumped and restarts at random points; simulated latencies let index dumps finish at arbitrary moments relative to the next operation; both I/O modes. Oracle: lifecycle call returns Ok whenever its precondition (observed at a quiescent point) holds; all query answers equal the model after the call and again after background work has quiesced; following writes and deletes succeed. Non-trivial = >= 3 data operations and at least one successful lifecycle call, offload that freed memory, or delete into a closed blob; distinct = distinct I/O event signature",
             nontrivial: nt_maint,
             assumptions: a,
             expected_probes: vec!["try_close_active_blob_ok", "try_restore_active_blob_ok", "try_create_active_blob_ok", "restore_of_indexed_blob", "offload_freed"],
@@ -129,7 +129,7 @@ pub fn spec_for(property: &str) -> Option<CheckSpec> {
             thorough_runs: 400_000,
             quick_budget_s: 60,
             thorough_budget_s: 600,
-            nontrivial_rule: "profile seq-filter+readfault injects EIO at the n-th read of an index file (bloom bytes probed from the file after an offload, on-disk index lookups): a query hit by the error may return the error, never an absent answer for a stored key. Otherwise: sequential histories with swarm bloom configs (bit counts not multiple of 64, 0..4 hashers, zero sizes, no bloom), group sizes 2..9, close/restore/re-close, delete-in-closed, offload_buffer(needed, level 0..3), restarts reading filters back from index files. Oracle after every step, for every key with a stored record: check_filters != Some(false), check_filter != NotContains, get_filter().contains_fast != NotContains; for 64 probe keys check_filter is identical immediately before and after an offload (on-file probe == in-memory probe) at a quiescent point; a hidden record also fails the C01 read comparison. Non-trivial = bloom configured, >= 3 data operations and at least one index dumped; distinct = distinct I/O event signature. The bare Bloom/RangeFilter API on key sets is a pure function and is only covered through the storage",
+            nontrivial_rule: "a third of the runs reopen under a second bloom configuration, in a third of those no bloom at all; profile seq-filter+readfault injects EIO at the n-th read of an index file (bloom bytes probed from the file after an offload, on-disk index lookups): a query hit by the error may return the error, never an absent answer for a stored key. Otherwise: sequential histories with swarm bloom configs (bit counts not multiple of 64, 0..4 hashers, zero sizes, no bloom), group sizes 2..9, close/restore/re-close, delete-in-closed, offload_buffer(needed, level 0..3), restarts reading filters back from index files. Oracle after every step, for every key with a stored record: check_filters != Some(false), check_filter != NotContains, get_filter().contains_fast != NotContains; for 64 probe keys check_filter is identical immediately before and after an offload (on-file probe == in-memory probe) at a quiescent point; a hidden record also fails the C01 read comparison. Non-trivial = bloom configured, >= 3 data operations and at least one index dumped; distinct = distinct I/O event signature. The bare Bloom/RangeFilter API on key sets is a pure function and is only covered through the storage",
             nontrivial: nt_filter,
             assumptions: a,
             expected_probes: vec!["offload_freed", "index_marked_complete"],
@@ -143,7 +143,7 @@ pub fn spec_for(property: &str) -> Option<CheckSpec> {
             thorough_runs: 400_000,
             quick_budget_s: 60,
             thorough_budget_s: 600,
-            nontrivial_rule: "monitor over the ordered I/O tap (sequential profiles, concurrent clients, where writes land while a background sync is in flight, and a share of crash-kill / crash-double runs, where the synced length of a blob is carried across a process kill and rule (b) is re-stated on the image that survives a power loss) with the dirty-byte limit drawn from {0,1,100,4096,1MiB,32MiB}: (a) a record is written into a blob only after a sync covering its header; (b) the header rewrite that sets an index's written bit comes after a sync of the blob covering the blob size recorded in that header; (c) after explicit fsyncdata Ok (no concurrent writer) and after a successful try_close_active_blob/close (active blob observed at a quiescent point) written length = synced length of that blob; (d) at quiescent points (no simulated job in flight, no I/O for three 2 ms windows) un-synced bytes of the active blob <= limit. Non-trivial = >= 3 data operations and at least one index marked complete or one quiescent dirty-bound check; distinct = distinct I/O event signature",
+            nontrivial_rule: "profile conc+fsync: clients call fsyncdata themselves while writes cross a dirty limit of 1..400 bytes; a record acknowledged before an fsyncdata call must be below the synced length when the call returns Ok (same blob active before and after). Otherwise: monitor over the ordered I/O tap (sequential profiles, concurrent clients, where writes land while a background sync is in flight, and a share of crash-kill / crash-double runs, where the synced length of a blob is carried across a process kill and rule (b) is re-stated on the image that survives a power loss) with the dirty-byte limit drawn from {0,1,100,4096,1MiB,32MiB}: (a) a record is written into a blob only after a sync covering its header; (b) the header rewrite that sets an index's written bit comes after a sync of the blob covering the blob size recorded in that header; (c) after explicit fsyncdata Ok (no concurrent writer) and after a successful try_close_active_blob/close (active blob observed at a quiescent point) written length = synced length of that blob; (d) at quiescent points (no simulated job in flight, no I/O for three 2 ms windows) un-synced bytes of the active blob <= limit. Non-trivial = >= 3 data operations and at least one index marked complete or one quiescent dirty-bound check; distinct = distinct I/O event signature",
             nontrivial: nt_sync,
             assumptions: a,
             expected_probes: vec!["index_marked_complete", "dirty_bound_checked"],
